@@ -35,6 +35,7 @@ F_OPS = [S + ":" + n for n in ("to_dict", "_circuit_to_dict", "circuit_from_dict
                                "custom_gate_def_from_dict", "_custom_gate_instance_from_dict", "_gate_operation_from_dict", "serialize_expr", "deserialize_expr", "_make_symbols_map")] + \
         ["orquestra.quantum.circuits._circuit:Circuit.collect_custom_gate_definitions"]
 FK = "symbols x and x[k] in one gate"
+FK_KW = "symbol named like a Python keyword"
 WRAPS = {"c1": lambda g: g.controlled(1), "c2": lambda g: g.controlled(2), "dag": lambda g: g.dagger, "p2": lambda g: g.power(2), "p0.5": lambda g: g.power(0.5),
          "p3": lambda g: g.power(3), "exp": lambda g: g.exp}
 
@@ -65,7 +66,19 @@ def _pool():
             sym[f"{n}(symbols)"] = v(*[[a, b, g1][i] for i in range(k)])
             sym[f"{n}(indexed)"] = v(*[[x3, x10, a][i] for i in range(k)])
             sym[f"{n}(expr)"] = v(*[[2 * a + 0.5, sympy.cos(b) * x3, a / 3][i] for i in range(k)])
+    # parameter texts that look like something else to a parser: symbols named like numbers / sympy objects, integers beyond double precision
+    for nm in ("inf", "nan", "Infinity", "pi", "E", "I", "S", "N", "oo", "e1", "t_1", "Symbol"):
+        sym[f"RZ(symbol named {nm})"] = B.RZ(sympy.Symbol(nm))
+        sym[f"U3(expr over symbol named {nm})"] = B.U3(2 * sympy.Symbol(nm), sympy.Symbol(nm) + a, 0.5)
+    for big in (2 ** 53 + 1, 10 ** 18 + 1, -(2 ** 63) - 5, 2 ** 64 + 3):
+        num[f"RZ({big})"] = B.RZ(big)
+        num[f"Delay({big})"] = B.Delay(big) if hasattr(B, "Delay") else B.RZ(big)
     t, u = sympy.symbols("t u")
+    # custom gates whose names differ from a built-in gate / a wrapper marker only by case or by a suffix
+    for nm, dim in (("sx", 2), ("phase", 2), ("iswap", 4), ("x", 2), ("cnot", 4), ("Sx", 2), ("control", 2), ("exponential", 2), ("dagger", 2)):
+        cd = CustomGateDefinition(nm, sympy.Matrix(sympy.diag(*([1] * (dim - 1) + [sympy.exp(sympy.I * t)]))), (t,))
+        num[f"custom named {nm}"] = cd(0.4)
+        sym[f"custom named {nm} (symbolic)"] = cd(a)
     cdef = CustomGateDefinition("ROT", sympy.Matrix([[sympy.cos(t), -sympy.sin(t)], [sympy.sin(t), sympy.cos(t) * sympy.exp(sympy.I * u)]]), (t, u))
     cfix = CustomGateDefinition("FIXED", sympy.Matrix([[0, 1j], [-1j, 0]]), ())
     c2 = CustomGateDefinition("TWOQ", sympy.Matrix(sympy.diag(1, sympy.exp(sympy.I * t), 1, sympy.exp(-sympy.I * t))), (t,))
@@ -505,6 +518,23 @@ OBSERVED = "round trip ok"
             return core.bounded_fail("a gate whose parameters use both the plain symbol x and the indexed symbol x[3] cannot be deserialised: " + str(r["observed"])[:200],
                                      cex={"params": ["x", "x[3]"]}, replay=r, finding_key=FK)
         return core.bounded_pass("plain + indexed symbol of the same name round-trips", 1)
+    def keyword_known():
+        code = """
+import json, sympy
+from orquestra.quantum.circuits import Circuit, U3, circuit_from_dict, to_dict
+lam = sympy.Symbol("lambda")
+c = Circuit([U3(sympy.Symbol("theta"), sympy.Symbol("phi"), lam)(0)])
+back = circuit_from_dict(json.loads(json.dumps(to_dict(c))))
+OK = bool(back == c)
+OBSERVED = "round trip ok"
+"""
+        r = rp.replay_dict(code, "a gate with a symbol named lambda round-trips")
+        if r["reproduced"]:
+            return core.bounded_fail("a gate parameter over a symbol named like a Python keyword (lambda) cannot be deserialised: " + str(r["observed"])[:200],
+                                     cex={"symbol": "lambda"}, replay=r, finding_key=FK_KW)
+        return core.bounded_pass("a symbol named lambda round-trips", 1)
+    obs.append(Ob("C05.symbols.python_keyword", "bounded", [S + ":deserialize_expr"], keyword_known,
+                  "a gate whose parameter uses a symbol named like a Python keyword (lambda, in, is, ...) survives the round trip"))
     obs.append(Ob("C05.symbols.plain_and_indexed", "bounded", [S + ":_make_symbols_map", S + ":deserialize_expr"], known,
                   "a gate using both a plain symbol x and an indexed symbol x[k] survives the round trip"))
     return obs
